@@ -271,8 +271,28 @@ func (r *Run) Finish(out string) int {
 		}
 		for sig, os := range open {
 			cs := unused[sig]
-			if len(os) == 0 || len(os) != len(cs) {
-				continue // only a complete, unambiguous move is followed
+			if len(os) == 0 || len(cs) == 0 || len(os) > len(cs) {
+				continue // only a complete move is followed
+			}
+			if len(os) < len(cs) {
+				// several recorded sites of the same construct merged into fewer (a helper now holds
+				// what its callers used to repeat): the recorded reasons are all about this construct
+				sort.Slice(cs, func(i, j int) bool { return cs[i].key < cs[j].key })
+				var reasons []string
+				seen := map[string]bool{}
+				for _, c := range cs {
+					if !seen[c.reason] {
+						seen[c.reason] = true
+						reasons = append(reasons, c.reason)
+					}
+					r.tableUsed(name, c.key)
+				}
+				for _, o := range os {
+					o.Status = "table:" + strings.Join(reasons, " / ") + fmt.Sprintf(" [construct moved: %d recorded sites are now %d]", len(cs), len(os))
+					o.Why = ""
+				}
+				r.Note("table %s: the %d lines for %q were applied to the %d site(s) the construct now has", name, len(cs), sig, len(os))
+				continue
 			}
 			sort.Slice(os, func(i, j int) bool { return os[i].Key < os[j].Key })
 			sort.Slice(cs, func(i, j int) bool { return cs[i].key < cs[j].key })
